@@ -117,6 +117,13 @@ def module_source():
                           HOOK_SRC[h]).rstrip('\n'))
         lines.append('')
         lines.append('')
+    # user equations derived from other user equations: every hook and the
+    # convergence rule are inherited, none is defined in the class itself
+    for mask in range(128):
+        lines.append('class TrD%03d(Tr%03d):' % (mask, mask))
+        lines.append('    pass')
+        lines.append('')
+        lines.append('')
     lines.append('class Nop(Equation):')
     lines.append('    def initialize(self, d_idx, d_nopv):')
     lines.append('        d_nopv[d_idx] = 0.0')
@@ -215,9 +222,10 @@ def reset(arrays):
 # ---------------------------------------------------------------------------
 # program specifications (JSON-able) -> Group objects
 # ---------------------------------------------------------------------------
-def eq_spec(mask, dest='a', sources=('a', 'b'), p=3, c=1, nconv=0, move=0.0):
+def eq_spec(mask, dest='a', sources=('a', 'b'), p=3, c=1, nconv=0, move=0.0,
+            derived=False):
     return dict(mask=mask, dest=dest, sources=list(sources) if sources
-                else None, p=p, c=c, nconv=nconv, move=move)
+                else None, p=p, c=c, nconv=nconv, move=move, derived=derived)
 
 
 def group_spec(eqs=None, subgroups=None, **kw):
@@ -258,6 +266,8 @@ def build_group(spec, log, tagp):
         for e in spec['eqs']:
             if e['sources'] is None:
                 cls = getattr(mod, 'TrN%03d' % (e['mask'] & ~0b0001100))
+            elif e.get('derived'):
+                cls = getattr(mod, 'TrD%03d' % e['mask'])
             else:
                 cls = getattr(mod, 'Tr%03d' % e['mask'])
             members.append(cls(dest=e['dest'], sources=e['sources'],
@@ -326,6 +336,10 @@ def programs(thorough, seed):
     for mask in range(0, 128, 1 if thorough else 3):
         progs.append([group_spec([eq_spec(mask, 'b', ('a',), p=5, c=2),
                                   eq_spec(FULL, 'a', ('b', 'c'), p=3, c=1)])])
+    # (1b) the same with classes that inherit all their hooks
+    for mask in range(0, 128, 1 if thorough else 5):
+        progs.append([group_spec([eq_spec(mask, 'a', ('a', 'b'), p=3,
+                                          c=mask % 7, derived=True)])])
     # (2) flag deviations (<=1 quick, <=2 thorough) of a rich default group,
     #     followed by a probe group whose result depends on neighbours
     base = group_spec([eq_spec(FULL, 'a', ('a', 'b'), p=3, c=1, move=0.4),
@@ -341,6 +355,13 @@ def programs(thorough, seed):
             for e in g['eqs']:
                 e['nconv'] = nconv
             progs.append([g, probe])
+            if d[0] == 'iterate' and nconv in (2, 4):
+                # convergence rule inherited from a parent equation class
+                g2 = copy.deepcopy(g)
+                for e in g2['eqs']:
+                    if e['sources'] is not None:
+                        e['derived'] = True
+                progs.append([g2, probe])
     if thorough:
         for d1, d2 in itertools.combinations(devs, 2):
             if d1[0] == d2[0]:
